@@ -61,6 +61,10 @@ func (c *RawSubstrateConfig) Validate() error {
 		return err
 	}
 
+	if c.BlockInterval < 1 {
+		return fmt.Errorf("blockInterval has to be >=1")
+	}
+
 	return nil
 }
 
